@@ -5,21 +5,26 @@ import CedarVerif.Lemmas.TCFrom
 import CedarVerif.Lemmas.TCCycle
 import CedarVerif.Lemmas.TCAccept
 import CedarVerif.Lemmas.TCUpsertMulti
+import CedarVerif.Lemmas.TCDedup
 import CedarVerif.Cedar.Eval
 /-
 C04 — Hierarchy membership equals parent-reachability after any store history.
-Property theorems about the mirror in `Cedar/TC.lean` (helpers: Lemmas/TC.lean, TCRepair.lean, TCOps.lean).
-Statements that are not proved at full strength are kept visible as `def …Full : Prop`; what is proved of
-them is named `…_partial` and says what is missing.
+Property theorems about the mirror in `Cedar/TC.lean` (helpers: Lemmas/TC.lean, TCRepair.lean, TCOps.lean, …,
+TCDedup.lean). Statements that were first proved only in part are kept visible as `def …Full : Prop` next to their
+`…_partial` theorems; the last sections of this file prove them at full strength.
 
-STATE (last section of this file): of the three residual hypotheses of `history_inv_partial`,
-`AcceptedAcyclic` is proved (`accepted_acyclic`: completeness of the cycle detection of `repair_tc`),
-`FromPreserves` is proved (`from_preserves`), and `UpsertMultiPreserves` is REFUTED
-(`upsert_multi_repeated_uid_counterexample`, a genuine defect of `upsert_entities` for batches naming a uid
-twice, reproduced on the implementation) and proved under the precise hypothesis "uids of the batch pairwise
-distinct" (`upsert_inv`, any batch length). Hence `history_inv` / `in_iff_reach_history_full` hold without
-residual hypotheses for histories whose upsert batches name each uid at most once; `AddInvFull` holds
-(`add_inv`); `repair_correct` is the two-sided statement about `repair_tc`.
+STATE: the model mirrors `upsert_entities` AS REPAIRED in /repo (fix: commit b19c617, known_findings.jsonl
+`fixed: … C04-upsert-batch-repeated-uid-stale-ancestor`): the collection is deduped up front (`dedupLastAtFirstPos`:
+last value of a uid, at the position of its first occurrence), then every uid is applied once.
+ * all three residual hypotheses of `history_inv_partial` are proved: `accepted_acyclic` (completeness of the cycle
+   detection of `repair_tc`), `from_preserves`, `upsert_multi_preserves` (ANY batch — the deduped batch has pairwise
+   distinct uids, `upsert_dedup_nodup`, and the spec does not see the dedup, `upsert_dedup_spec`);
+ * hence `upsert_inv` (= `UpsertInvFull`, every batch), `add_inv`, `remove_inv`, and `history_inv` (= `HistoryInvFull`) /
+   `in_iff_reach_history_full` for EVERY list of pure operations, with no hypothesis on upsert batches;
+ * the record of the defect: the code BEFORE the repair (`upsertEntitiesPreFix`, `runOpsPreFix`) violates the invariant
+   on a batch naming a uid twice (`upsert_multi_repeated_uid_counterexample`, `upsert_multi_preserves_refuted`);
+   for batches naming every uid once the repair changes nothing (`upsert_fix_conservative`);
+ * `repair_correct` is the two-sided statement about `repair_tc`.
 -/
 namespace Cedar.C04
 open Cedar Cedar.TC
@@ -255,9 +260,9 @@ example : (removeEntities .compute
     [(0, ({ parents := [1, 2], indirect := [9, 7] } : Node Nat)), (1, { parents := [9, 7], indirect := [] }),
      (2, { parents := [9], indirect := [] })] [1]).toOption.map (fun s => ancestors s 0) = some [2, 9] := by decide
 
-/-- full statement for `upsert_entities` (arbitrary batches, processed sequentially by the code).
-    FALSE for batches naming a uid twice (stale ancestors, and then also spurious `cycle` reports are
-    possible); proved for batches with pairwise distinct uids: `upsert_inv`. -/
+/-- full statement for `upsert_entities` (arbitrary batches). PROVED for the repaired code: `upsert_inv`.
+    (Before /repo's fix: commit b19c617 it was FALSE for batches naming a uid twice — stale ancestors, and
+    then also spurious `cycle` reports were possible: `upsert_multi_repeated_uid_counterexample`.) -/
 def UpsertInvFull (α : Type) [DecidableEq α] : Prop :=
   ∀ (s : Store α) (es : List (α × Node α)), Inv s → PureBatch es →
     (∀ s', upsertEntities .compute s es = .ok s' → Inv s' ∧ parentGraph s' = specUpsert (parentGraph s) es) ∧
@@ -267,8 +272,7 @@ def UpsertInvFull (α : Type) [DecidableEq α] : Prop :=
     ancestors stripped from all descendants, alternative paths restored by the repair) or inserting a new
     one: if the resulting parent graph is acyclic the operation is accepted, re-establishes `Inv` and
     yields the spec's parent graph; it fails only with `cycle` and only if the resulting parent graph is
-    cyclic. MISSING: batches of several entities (intermediate stores are not closed; needs an invariant
-    like `RInv` of the remove proof), and "a cyclic result is always rejected". -/
+    cyclic. (Superseded by `upsert_inv`: batches of any length, and "a cyclic result is always rejected".) -/
 theorem upsert_inv_partial (s : Store α) (e : α × Node α) (hinv : Inv s) (hpure : e.2.indirect = []) :
     (Acyclic (specUpsert (parentGraph s) [e]) →
       ∃ s', upsertEntities .compute s [e] = .ok s' ∧ Inv s' ∧ parentGraph s' = specUpsert (parentGraph s) [e]) ∧
@@ -276,6 +280,8 @@ theorem upsert_inv_partial (s : Store α) (e : α × Node α) (hinv : Inv s) (hp
       err = .cycle ∧ ¬ Acyclic (specUpsert (parentGraph s) [e])) := by
   have hp : PureBatch [e] := by
     intro e' he'; simp only [List.mem_singleton] at he'; subst he'; exact hpure
+  have hE : upsertEntities .compute s [e] = upsertApply .compute s [e] := rfl
+  rw [hE]
   cases hold : TC.get s e.1 with
   | some old =>
     have p4 := (upsert_single_pre s e hinv hpure old hold).2.2.2
@@ -367,10 +373,14 @@ def OpPreserves (α : Type) [DecidableEq α] : Prop :=
   ∀ (s : Store α) (o : Op α) (s' : Store α), Inv s → PureOp o → applyOp s o = .ok s' → Inv s'
 
 /-- full statement: after any history of pure operations (failed ones leave the store unchanged) the
-    invariant holds. FALSE (`upsert_multi_repeated_uid_counterexample`); true and proved when every upsert
-    batch names each uid at most once (`history_inv`). -/
+    invariant holds. PROVED for the repaired code: `history_inv`. -/
 def HistoryInvFull (α : Type) [DecidableEq α] : Prop :=
   ∀ ops : List (Op α), (∀ o, o ∈ ops → PureOp o) → Inv (runOps [] ops)
+
+/-- the same statement about the code before /repo's fix: commit b19c617 (`runOpsPreFix`: upsert batches applied as
+    given). FALSE: `upsert_multi_repeated_uid_counterexample`. -/
+def HistoryInvFullPreFix (α : Type) [DecidableEq α] : Prop :=
+  ∀ ops : List (Op α), (∀ o, o ∈ ops → PureOp o) → Inv (runOpsPreFix [] ops)
 
 /-- residual 1 (completeness of cycle detection): an accepted add/upsert has an acyclic parent graph.
     PROVED: `accepted_acyclic`. -/
@@ -379,11 +389,16 @@ def AcceptedAcyclic (α : Type) [DecidableEq α] : Prop :=
     ∀ x, ¬ Reach (shape s') x x
 
 /-- residual 2: upsert batches that do not consist of exactly one entity.
-    FALSE as stated (`upsert_multi_preserves_refuted`: a batch naming a uid twice leaves a stale ancestor);
-    true and proved for batches with pairwise distinct uids (`UpsertDistinctPreserves`, `upsert_inv`). -/
+    PROVED for the repaired code: `upsert_multi_preserves`. -/
 def UpsertMultiPreserves (α : Type) [DecidableEq α] : Prop :=
   ∀ (s : Store α) (es : List (α × Node α)) (s' : Store α), Inv s → PureBatch es → es.length ≠ 1 →
     upsertEntities .compute s es = .ok s' → Inv s'
+
+/-- residual 2 about the code before /repo's fix: commit b19c617. FALSE (`upsert_multi_preserves_refuted`: a batch
+    naming a uid twice leaves a stale ancestor). -/
+def UpsertMultiPreservesPreFix (α : Type) [DecidableEq α] : Prop :=
+  ∀ (s : Store α) (es : List (α × Node α)) (s' : Store α), Inv s → PureBatch es → es.length ≠ 1 →
+    upsertEntitiesPreFix .compute s es = .ok s' → Inv s'
 
 /-- residual 3: the contract of `compute_tc` inside `from_entities` (SCC internals not mirrored).
     PROVED for the model's `closure`: `from_preserves`. -/
@@ -433,8 +448,9 @@ theorem op_preserves_partial (h1 : AcceptedAcyclic α) (h2 : UpsertMultiPreserve
     · match es, hlen with
       | [e], _ =>
         have hpure : e.2.indirect = [] := hpb e List.mem_cons_self
+        have hok' : upsertApply .compute s [e] = .ok s' := hok
         have hrep : repairTc (touchPass (upsertOne (s, []) e).1 (upsertOne (s, []) e).2) (upsertOne (s, []) e).1 = .ok s' := by
-          simpa [upsertEntities, finish] using hok
+          simpa [upsertApply, finish] using hok'
         have hsh := shape_of_pg (repairTc_pg hrep)
         have hspec : parentGraph (upsertOne (s, []) e).1 = specUpsert (parentGraph s) [e] := by
           cases hold : TC.get s e.1 with
@@ -450,11 +466,12 @@ theorem op_preserves_partial (h1 : AcceptedAcyclic α) (h2 : UpsertMultiPreserve
         rw [h'] at hok; cases hok; exact hi
     · exact h2 s es s' hinv hpb hlen hok
 
-/-- `history_inv`: the induction over arbitrary operation lists is proved; with the operation theorems
+/-- `history_inv`, reduction step: the induction over arbitrary operation lists; with the operation theorems
     (`add_inv_partial`, `remove_inv`, `upsert_inv_partial`) it reduces `HistoryInvFull` to three named
-    residuals. MISSING: `AcceptedAcyclic` (completeness of the cycle detection, see
-    `repair_correct_partial`), `UpsertMultiPreserves` (multi-entity upsert batches), `FromPreserves`
-    (contract of `compute_tc`); all three are exercised by the correspondence (exhaustive on ≤ 3 uids). -/
+    residuals: `AcceptedAcyclic` (completeness of the cycle detection, see `repair_correct_partial`),
+    `UpsertMultiPreserves` (multi-entity upsert batches), `FromPreserves` (contract of `compute_tc`).
+    All three are proved below (`accepted_acyclic`, `upsert_multi_preserves`, `from_preserves`); `history_inv`
+    is the statement without hypotheses. -/
 theorem history_inv_partial (h1 : AcceptedAcyclic α) (h2 : UpsertMultiPreserves α) (h3 : FromPreserves α) :
     HistoryInvFull α := by
   have h := op_preserves_partial h1 h2 h3
@@ -482,7 +499,7 @@ theorem in_iff_reach_history (h1 : AcceptedAcyclic EntityUID) (h2 : UpsertMultiP
     inE (toEntities (runOps [] ops)) e a = true ↔ a = e ∨ Reach (shape (runOps [] ops)) e a :=
   in_iff_reach _ (history_inv_partial h1 h2 h3 ops hp) e a
 
-/-! ### the residuals, discharged or refuted -/
+/-! ### the residuals discharged; the pre-fix code refuted -/
 
 /-- residual 3 discharged: whatever the contract `closure` (standing for `compute_tc`) returns on a batch
     without indirect ancestors satisfies the invariant: saturation keeps the direct parents, adds only
@@ -492,7 +509,7 @@ theorem from_preserves : FromPreserves α :=
   fun es s' hpb hok => fromEntities_inv es s' hpb hok
 
 /-- residual 1 discharged (COMPLETENESS of the cycle detection): a pure from/add/upsert/remove that is
-    accepted has an acyclic parent graph. For add/upsert (ANY batch, repeated uids included): the records
+    accepted has an acyclic parent graph. For add/upsert (ANY batch): the records
     that stay untouched are unchanged records of a store satisfying the invariant, hence complete for the
     new parent graph and without self-edge, so every cycle runs through touched nodes only; the first
     node on a cycle visited by the DFS of `repair_tc` gets an edge to itself (`addAnc_cspec`), which
@@ -562,6 +579,8 @@ theorem reach_elim {P : α → Option (List α)} {x y : α} (h : Reach P x y) :
   | edge hp hy => exact ⟨_, hp, Or.inl hy⟩
   | step hp hz hzy => exact ⟨_, hp, Or.inr ⟨_, hz, hzy⟩⟩
 
+/-! ### the record of the defect: `upsert_entities` before /repo's fix: commit b19c617 -/
+
 /-- the witness: x=0 → w=1 → u=2, w → v=3 → y=4 -/
 def cexBase : List (Nat × Node Nat) :=
   [(0, { parents := [1], indirect := [] }), (1, { parents := [2, 3], indirect := [] }),
@@ -573,30 +592,26 @@ def cexBatch : List (Nat × Node Nat) :=
   [(2, { parents := [4], indirect := [] }), (2, { parents := [], indirect := [] }),
    (1, { parents := [], indirect := [] })]
 
+theorem cexBase_pure : PureBatch cexBase := by
+  intro e he; simp only [cexBase, List.mem_cons, List.mem_nil_iff, or_false] at he
+  rcases he with rfl | rfl | rfl | rfl | rfl <;> rfl
+
+theorem cexBatch_pure : PureBatch cexBatch := by
+  intro e he; simp only [cexBatch, List.mem_cons, List.mem_nil_iff, or_false] at he
+  rcases he with rfl | rfl | rfl <;> rfl
+
+/-- what the pre-fix code leaves: x lists y although x → w and w has no parents -/
 theorem cex_run :
-    (TC.get (runOps [] [Op.from .compute cexBase, Op.upsert .compute cexBatch]) 0).map
+    (TC.get (runOpsPreFix [] [Op.from .compute cexBase, Op.upsert .compute cexBatch]) 0).map
         (fun n => (n.parents, n.indirect)) = some ([1], [4]) ∧
-    (TC.get (runOps [] [Op.from .compute cexBase, Op.upsert .compute cexBatch]) 1).map
+    (TC.get (runOpsPreFix [] [Op.from .compute cexBase, Op.upsert .compute cexBatch]) 1).map
         (fun n => (n.parents, n.indirect)) = some ([], []) := by decide +kernel
 
-/-- FINDING (genuine, reproduced on the implementation — see known_findings.jsonl
-    `C04-upsert-batch-repeated-uid-stale-ancestor`): `HistoryInvFull` is FALSE. An upsert batch that names
-    a uid twice leaves a stale indirect ancestor: after `from [x<w, w<u,v, u<, v<y, y<]` and the single call
-    `upsert [u<y, u<, w<]` the record of x still lists y although x → w and w has no parents. The second
-    overwrite of u strips u's ancestors {y} only from records that still list u (w, not x — x lost u in
-    the first strip); the overwrite of w then strips only w's current ancestors from x. -/
-theorem upsert_multi_repeated_uid_counterexample : ¬ HistoryInvFull Nat := by
-  intro h
-  have hinv := h [Op.from .compute cexBase, Op.upsert .compute cexBatch] (by
-    intro o ho
-    simp only [List.mem_cons, List.mem_nil_iff, or_false] at ho
-    rcases ho with rfl | rfl
-    · exact ⟨rfl, by intro e he; simp only [cexBase, List.mem_cons, List.mem_nil_iff, or_false] at he
-                     rcases he with rfl | rfl | rfl | rfl | rfl <;> rfl⟩
-    · exact ⟨rfl, by intro e he; simp only [cexBatch, List.mem_cons, List.mem_nil_iff, or_false] at he
-                     rcases he with rfl | rfl | rfl <;> rfl⟩)
-  obtain ⟨hrun0, hrun1⟩ := cex_run
-  generalize runOps [] [Op.from .compute cexBase, Op.upsert .compute cexBatch] = sf at hinv hrun0 hrun1
+/-- a store in which x=0 has parents {1} and indirect ancestor 4 while 1 has no parents violates the invariant -/
+theorem cex_not_inv (sf : Store Nat)
+    (hrun0 : (TC.get sf 0).map (fun n => (n.parents, n.indirect)) = some ([1], [4]))
+    (hrun1 : (TC.get sf 1).map (fun n => (n.parents, n.indirect)) = some ([], [])) : ¬ Inv sf := by
+  intro hinv
   cases hg0 : TC.get sf 0 with
   | none => rw [hg0] at hrun0; cases hrun0
   | some n0 =>
@@ -621,39 +636,61 @@ theorem upsert_multi_repeated_uid_counterexample : ¬ HistoryInvFull Nat := by
         cases hps1
         simp at hcase1
 
-/-- … hence residual 2 as stated (any batch of length ≠ 1) is false as well -/
-theorem upsert_multi_preserves_refuted : ¬ UpsertMultiPreserves Nat := by
+/-- FINDING, FIXED in /repo (commit b19c617; known_findings.jsonl `fixed: …
+    C04-upsert-batch-repeated-uid-stale-ancestor`; it was reproduced on the implementation). This theorem is
+    about the code BEFORE /repo's fix (`runOpsPreFix` / `upsertEntitiesPreFix`): `HistoryInvFullPreFix` is FALSE.
+    An upsert batch that names a uid twice leaves a stale indirect ancestor: after
+    `from [x<w, w<u,v, u<, v<y, y<]` and the single call `upsert [u<y, u<, w<]` the record of x still lists y
+    although x → w and w has no parents. The second overwrite of u strips u's ancestors {y} only from records
+    that still list u (w, not x — x lost u in the first strip); the overwrite of w then strips only w's current
+    ancestors from x. -/
+theorem upsert_multi_repeated_uid_counterexample : ¬ HistoryInvFullPreFix Nat := by
+  intro h
+  have hinv := h [Op.from .compute cexBase, Op.upsert .compute cexBatch] (by
+    intro o ho
+    simp only [List.mem_cons, List.mem_nil_iff, or_false] at ho
+    rcases ho with rfl | rfl
+    · exact ⟨rfl, cexBase_pure⟩
+    · exact ⟨rfl, cexBatch_pure⟩)
+  exact cex_not_inv _ cex_run.1 cex_run.2 hinv
+
+/-- … hence residual 2 for the code before /repo's fix: commit b19c617 (any batch of length ≠ 1) is false as well -/
+theorem upsert_multi_preserves_refuted : ¬ UpsertMultiPreservesPreFix Nat := by
   intro h2
-  exact upsert_multi_repeated_uid_counterexample (history_inv_partial accepted_acyclic h2 from_preserves)
+  have hbase : fromEntities .compute cexBase = .ok (runOps [] [Op.from .compute cexBase]) := by rfl
+  have hup : upsertEntitiesPreFix .compute (runOps [] [Op.from .compute cexBase]) cexBatch =
+      .ok (runOpsPreFix [] [Op.from .compute cexBase, Op.upsert .compute cexBatch]) := by rfl
+  have hinv0 : Inv (runOps [] [Op.from .compute cexBase]) := from_preserves cexBase _ cexBase_pure hbase
+  exact cex_not_inv _ cex_run.1 cex_run.2 (h2 _ cexBatch _ hinv0 cexBatch_pure (by decide) hup)
 
-/-! ### `upsert_entities` and histories, with the precise hypothesis: uids of an upsert batch pairwise distinct -/
+/-- the repaired code on the witness: the batch is deduped to [u<, w<]; x keeps only w -/
+example : (runOps [] [Op.from .compute cexBase, Op.upsert .compute cexBatch]).map
+    (fun kn => (kn.1, kn.2.parents, kn.2.indirect)) =
+    [(0, [1], []), (1, [], []), (2, [], []), (3, [4], []), (4, [], [])] := by decide +kernel
+example : dedupLastAtFirstPos cexBatch =
+    [(2, { parents := [], indirect := [] }), (1, { parents := [], indirect := [] })] := by rfl
 
-/-- residual 2 with the hypothesis that makes it true: upsert batches of ANY length whose uids are
-    pairwise distinct -/
-def UpsertDistinctPreserves (α : Type) [DecidableEq α] : Prop :=
-  ∀ (s : Store α) (es : List (α × Node α)) (s' : Store α), Inv s → PureBatch es → (es.map (·.1)).Nodup →
-    upsertEntities .compute s es = .ok s' → Inv s'
+/-! ### `upsert_entities` (repaired) and histories at full strength -/
 
-/-- `UpsertInvFull` restricted to batches with pairwise distinct uids holds at full strength (any batch
+/-- the second loop of `upsert_entities` on a batch whose uids are pairwise distinct (any batch
     length; overwriting several nodes of one chain, in any order; inserting new records; dangling parents):
     accepted exactly when the spec's parent graph is acyclic, then the invariant is re-established — stale
     ancestors stripped from all descendants, alternative paths restored by the repair — with the spec's
     parent graph; otherwise `cycle` -/
-theorem upsert_inv (s : Store α) (es : List (α × Node α)) (hinv : Inv s) (hp : PureBatch es)
+theorem upsert_apply_inv (s : Store α) (es : List (α × Node α)) (hinv : Inv s) (hp : PureBatch es)
     (hnd : (es.map (·.1)).Nodup) :
-    (∀ s', upsertEntities .compute s es = .ok s' → Inv s' ∧ parentGraph s' = specUpsert (parentGraph s) es) ∧
-    (∀ e, upsertEntities .compute s es = .error e ↔ (e = .cycle ∧ ¬ Acyclic (specUpsert (parentGraph s) es))) := by
-  obtain ⟨u1, u2⟩ := upsertEntities_distinct s es hinv hp hnd
+    (∀ s', upsertApply .compute s es = .ok s' → Inv s' ∧ parentGraph s' = specUpsert (parentGraph s) es) ∧
+    (∀ e, upsertApply .compute s es = .error e ↔ (e = .cycle ∧ ¬ Acyclic (specUpsert (parentGraph s) es))) := by
+  obtain ⟨u1, u2⟩ := upsertApply_distinct s es hinv hp hnd
   have hpg := pg_upsertFold es (s, [])
   simp only at hpg
   constructor
   · intro s' hok
-    have hac := accepted_acyclic s (.upsert .compute es) s' hinv ⟨rfl, hp⟩ hok
     have hrep : repairTc (touchPass (es.foldl upsertOne (s, [])).1 (es.foldl upsertOne (s, [])).2)
         (es.foldl upsertOne (s, [])).1 = .ok s' := by
-      simpa [upsertEntities, finish] using hok
-    have hsh := shape_of_pg (repairTc_pg hrep)
-    obtain ⟨s'', h', hi, hpg'⟩ := u1 (hsh ▸ hac)
+      simpa [upsertApply, finish] using hok
+    have hac := (upsertFold_frame es (s, []) (frame_init s)).accepts_acyclic hinv hrep
+    obtain ⟨s'', h', hi, hpg'⟩ := u1 hac
     rw [h'] at hok; cases hok; exact ⟨hi, hpg'⟩
   · intro e
     constructor
@@ -661,15 +698,46 @@ theorem upsert_inv (s : Store α) (es : List (α × Node α)) (hinv : Inv s) (hp
       obtain ⟨h1, x, hx⟩ := u2 e h
       exact ⟨h1, fun hac => (acyclic_pg _).mp (hpg ▸ hac) x hx⟩
     · rintro ⟨rfl, hcyc⟩
-      apply upsertEntities_cyclic s es hinv
+      apply upsertApply_cyclic s es hinv
       apply Classical.byContradiction
       intro hne
       apply hcyc
       rw [← hpg]
       exact (acyclic_pg _).mpr (fun x hx => hne ⟨x, hx⟩)
 
-theorem upsert_distinct_preserves : UpsertDistinctPreserves α :=
-  fun s es s' hinv hp hnd hok => ((upsert_inv s es hinv hp hnd).1 s' hok).1
+/-- the first loop of the repaired `upsert_entities` (mirror of the `batch`/`position` loop) yields a batch
+    whose uids are pairwise distinct, made of entities of the collection … -/
+theorem upsert_dedup_nodup (es : List (α × Node α)) :
+    ((dedupLastAtFirstPos es).map (·.1)).Nodup ∧ ∀ e, e ∈ dedupLastAtFirstPos es → e ∈ es :=
+  ⟨dedup_nodup es, dedup_mem es⟩
+
+/-- … and the spec does not see it: upserting the deduped batch and upserting the collection as given
+    (record replaced or appended, last occurrence wins) give the same parent graph -/
+theorem upsert_dedup_spec (g : PGraph α) (es : List (α × Node α)) :
+    specUpsert g (dedupLastAtFirstPos es) = specUpsert g es :=
+  specUpsert_dedup g es
+
+/-- the repair changes nothing for a call naming every uid once: the deduped batch is the collection, the
+    repaired and the pre-fix code coincide -/
+theorem upsert_fix_conservative (m : Mode) (s : Store α) (es : List (α × Node α)) (hnd : (es.map (·.1)).Nodup) :
+    dedupLastAtFirstPos es = es ∧ upsertEntities m s es = upsertEntitiesPreFix m s es := by
+  have h := dedup_of_nodup es hnd
+  exact ⟨h, by simp only [upsertEntities, upsertEntitiesPreFix, h]⟩
+
+/-- C04, `upsert_entities` at full strength (`UpsertInvFull`), for EVERY batch — repeated uids included, any
+    length, overwriting several nodes of one chain in any order, new records, dangling parents: on a store
+    satisfying the invariant the call is accepted exactly when the spec's parent graph (of the batch AS GIVEN:
+    last value wins) is acyclic; then the invariant is re-established — no stale ancestor survives, alternative
+    paths are restored by the repair — with the spec's parent graph; otherwise it reports `cycle`. -/
+theorem upsert_inv : UpsertInvFull α := by
+  intro s es hinv hp
+  have h := upsert_apply_inv s (dedupLastAtFirstPos es) hinv (dedup_pure es hp) (dedup_nodup es)
+  rw [specUpsert_dedup] at h
+  exact h
+
+/-- residual 2 discharged, as originally stated (any batch) -/
+theorem upsert_multi_preserves : UpsertMultiPreserves α :=
+  fun s es s' hinv hp _ hok => ((upsert_inv s es hinv hp).1 s' hok).1
 
 /-- non-vacuity: x → a → t, x → b → t, a → p; ONE batch replaces `a` by a root and `b` by `b → p`:
     `x` loses `t` (both paths are cut) and keeps `p` (now through `b`) -/
@@ -679,15 +747,19 @@ example : (upsertEntities .compute
     [(1, { parents := [], indirect := [] }), (2, { parents := [7], indirect := [] })]).toOption.map
        (fun s => ancestors s 0) = some [1, 2, 7] := by decide
 
-/-- an upsert names every uid at most once -/
-def DistinctOp : Op α → Prop
-  | .upsert _ es => (es.map (·.1)).Nodup
-  | _ => True
+/-- non-vacuity, repeated uid: the same store; ONE batch names `a` twice (first `a → t only`, then `a` a root)
+    around an overwrite of `b`: the last value of `a` wins, `x` keeps exactly a, b, p -/
+example : (upsertEntities .compute
+    [(0, ({ parents := [1, 2], indirect := [9, 7] } : Node Nat)), (1, { parents := [9, 7], indirect := [] }),
+     (2, { parents := [9], indirect := [] })]
+    [(1, { parents := [9], indirect := [] }), (2, { parents := [7], indirect := [] }),
+     (1, { parents := [], indirect := [] })]).toOption.map
+       (fun s => ancestors s 0) = some [1, 2, 7] := by decide
 
-/-- every accepted pure operation whose upsert batches name each uid at most once preserves the invariant
-    (no residual hypothesis) -/
-theorem op_preserves (s : Store α) (o : Op α) (s' : Store α) (hinv : Inv s) (hp : PureOp o)
-    (hd : DistinctOp o) (hok : applyOp s o = .ok s') : Inv s' := by
+/-- every accepted pure operation preserves the invariant (no residual hypothesis, no restriction on upsert
+    batches) -/
+theorem op_preserves : OpPreserves α := by
+  intro s o s' hinv hp hok
   cases o with
   | «from» m es => exact from_preserves es s' hp.2 (by obtain ⟨rfl, _⟩ := hp; exact hok)
   | remove m us =>
@@ -701,15 +773,18 @@ theorem op_preserves (s : Store α) (o : Op α) (s' : Store α) (hinv : Inv s) (
     exact ((add_inv s es hinv hpb).1 s' hok).1
   | upsert m es =>
     obtain ⟨rfl, hpb⟩ := hp
-    exact upsert_distinct_preserves s es s' hinv hpb hd hok
+    exact ((upsert_inv s es hinv hpb).1 s' hok).1
 
-/-- C04 `history_inv`, unconditional: after ANY history of pure operations (from/add/upsert/remove with
-    ComputeNow and inputs without indirect ancestors; failed operations leave the store unchanged) whose
-    upsert batches name each uid at most once, the invariant holds: ancestors = Reach⁺ over the
-    direct-parent links of the records present, acyclic, parents ∩ indirect = ∅. The restriction on upsert
-    batches is necessary: `upsert_multi_repeated_uid_counterexample`. -/
-theorem history_inv (ops : List (Op α)) (hp : ∀ o, o ∈ ops → PureOp o ∧ DistinctOp o) : Inv (runOps [] ops) := by
-  have gen : ∀ (ops : List (Op α)) (s : Store α), Inv s → (∀ o, o ∈ ops → PureOp o ∧ DistinctOp o) →
+/-- C04 `history_inv`, unconditional (= `HistoryInvFull`): after ANY history of pure operations the invariant
+    holds: ancestors = Reach⁺ over the direct-parent links of the records present, acyclic,
+    parents ∩ indirect = ∅. Failed operations leave the store unchanged. `PureOp` is still needed and excludes
+    exactly the calls in which the CALLER vouches for the closure: `AssumeAlreadyComputed` (nothing is checked),
+    `EnforceAlreadyComputed` (`enforce_exact`: out-edges closed and irreflexive is checked, but not that every
+    listed ancestor is justified by parent links) and entities handed in with indirect ancestors of their own
+    (`Entity::new` with `ancestors`; ComputeNow only ever adds edges to what it is given). There is no
+    restriction on the batches: duplicates, repeated uids, dangling parents, cycles (rejected) are covered. -/
+theorem history_inv (ops : List (Op α)) (hp : ∀ o, o ∈ ops → PureOp o) : Inv (runOps [] ops) := by
+  have gen : ∀ (ops : List (Op α)) (s : Store α), Inv s → (∀ o, o ∈ ops → PureOp o) →
       Inv (runOps s ops) := by
     intro ops
     induction ops with
@@ -721,36 +796,41 @@ theorem history_inv (ops : List (Op α)) (hp : ∀ o, o ∈ ops → PureOp o ∧
       · unfold stepOp
         cases ha : applyOp s o with
         | error e => exact hs
-        | ok s' => exact op_preserves s o s' hs (hp o List.mem_cons_self).1 (hp o List.mem_cons_self).2 ha
+        | ok s' => exact op_preserves s o s' hs (hp o List.mem_cons_self) ha
       · exact fun o' ho' => hp o' (List.mem_cons_of_mem _ ho')
   exact gen ops [] inv_empty hp
 
-/-- non-vacuity of `history_inv`: from, a two-entity upsert, a rejected cyclic add, a remove -/
+theorem history_inv_full : HistoryInvFull α := fun ops hp => history_inv ops hp
+
+/-- non-vacuity of `history_inv`: from, an upsert naming uid 1 twice around an overwrite of 2, a rejected
+    cyclic add, a remove -/
 example : ∀ o, o ∈ [Op.from .compute [(0, ({ parents := [1], indirect := [] } : Node Nat)),
       (1, { parents := [2], indirect := [] })],
-    Op.upsert .compute [(2, { parents := [3], indirect := [] }), (1, { parents := [2, 4], indirect := [] })],
+    Op.upsert .compute [(1, { parents := [5], indirect := [] }), (2, { parents := [3], indirect := [] }),
+      (1, { parents := [2, 4], indirect := [] })],
     Op.add .compute [(3, { parents := [0], indirect := [] })], Op.remove .compute [1]] →
-    PureOp o ∧ DistinctOp o := by
+    PureOp o := by
   intro o ho
   simp only [List.mem_cons, List.mem_nil_iff, or_false] at ho
   rcases ho with rfl | rfl | rfl | rfl
-  · exact ⟨⟨rfl, by intro e he; simp only [List.mem_cons, List.mem_nil_iff, or_false] at he
-                    rcases he with rfl | rfl <;> rfl⟩, trivial⟩
-  · exact ⟨⟨rfl, by intro e he; simp only [List.mem_cons, List.mem_nil_iff, or_false] at he
-                    rcases he with rfl | rfl <;> rfl⟩, by simp [DistinctOp]⟩
-  · exact ⟨⟨rfl, by intro e he; simp only [List.mem_cons, List.mem_nil_iff, or_false] at he
-                    rcases he with rfl; rfl⟩, trivial⟩
-  · exact ⟨rfl, trivial⟩
+  · exact ⟨rfl, by intro e he; simp only [List.mem_cons, List.mem_nil_iff, or_false] at he
+                   rcases he with rfl | rfl <;> rfl⟩
+  · exact ⟨rfl, by intro e he; simp only [List.mem_cons, List.mem_nil_iff, or_false] at he
+                   rcases he with rfl | rfl | rfl <;> rfl⟩
+  · exact ⟨rfl, by intro e he; simp only [List.mem_cons, List.mem_nil_iff, or_false] at he
+                   rcases he with rfl; rfl⟩
+  · exact rfl
 
 example : (runOps [] [Op.from .compute [(0, ({ parents := [1], indirect := [] } : Node Nat)),
       (1, { parents := [2], indirect := [] })],
-    Op.upsert .compute [(2, { parents := [3], indirect := [] }), (1, { parents := [2, 4], indirect := [] })],
+    Op.upsert .compute [(1, { parents := [5], indirect := [] }), (2, { parents := [3], indirect := [] }),
+      (1, { parents := [2, 4], indirect := [] })],
     Op.add .compute [(3, { parents := [0], indirect := [] })], Op.remove .compute [1]]).map
       (fun kn => (kn.1, kn.2.out)) = [(0, []), (2, [3])] := by decide +kernel
 
-/-- C04, unconditional: in every state reached by a history of pure operations whose upsert batches name
-    each uid at most once, `e in a` is reflexive parent-reachability -/
-theorem in_iff_reach_history_full (ops : List (Op EntityUID)) (hp : ∀ o, o ∈ ops → PureOp o ∧ DistinctOp o)
+/-- C04, unconditional: in every state reached by a history of pure operations, `e in a` is reflexive
+    parent-reachability -/
+theorem in_iff_reach_history_full (ops : List (Op EntityUID)) (hp : ∀ o, o ∈ ops → PureOp o)
     (e a : EntityUID) :
     inE (toEntities (runOps [] ops)) e a = true ↔ a = e ∨ Reach (shape (runOps [] ops)) e a :=
   in_iff_reach _ (history_inv ops hp) e a
